@@ -34,6 +34,14 @@ CLAIMED = {
          "Trusted: petgraph::algo::toposort contract; rustc MIR. Consumers outside forc-pkg/forc-test/sway-lsp are not analysed.",
          "DESIGN.md §3 C22"),
 
+ "C23": ("E-MIR", "other", "MIR unit-of-measure taint (UTF-16 column vs byte offsets) + panic-site enumeration + dominance/provenance rules on apply_change, validate_range, position_to_index, calculate_line_offsets",
+         "Decides structural clauses of document sync: the UTF-16 column reaches byte offsets only through a per-char len_utf16 count; "
+         "indices handed to replace_range are char boundaries by provenance and are exactly the validated ones (start<=end<=len) on the Ok "
+         "edge of validate_range; no unreviewed panicking construct in the change-application cone; the line table is rebuilt after every "
+         "content mutation; full-text changes replace the content and changes apply in order with errors propagated. Equality with the "
+         "client's text for every edit sequence is the conjunction of these with std's String contracts and is not decided as a whole.",
+         "Trusted: rustc MIR/resolution; String::replace_range, char_indices, len_utf16 contracts; three reviewed arithmetic sites (spec/c23_sites.txt).",
+         "DESIGN.md §3 C23"),
  "C21": ("E-MIR", "proof", "MIR call-graph cone + panic-site enumeration with dominator-checked guard idioms",
          "Every potentially panicking MIR construct reachable from Lock::from_path / Lock::to_graph / source::Pinned::from_str "
          "is enumerated on each run and must be discharged by a machine-checked idiom or a reviewed, exactly keyed site; "
